@@ -2,6 +2,7 @@ import GeoVerif.Corr.Proto
 import GeoVerif.Model.GeodInverse
 import GeoVerif.Model.GeodInvSeries
 import GeoVerif.FP.RunErr
+import GeoVerif.Corr.C02Full
 /-! Correspondence for C02: canonical-form bookkeeping of the inverse solvers, and output ranges -/
 namespace GeoVerif.Corr.C02
 open GeoVerif GeoVerif.Proto GeoVerif.GeodInverse
@@ -58,6 +59,9 @@ def handleSeries (op : String) (args res : List String) : Option Verdict :=
 
 def handle (op : String) (args res : List String) : Option Verdict :=
   match handleSeries op args res with
+  | some v => some v
+  | none =>
+  match C02Full.handle op args res with
   | some v => some v
   | none =>
   match op with
